@@ -33,17 +33,19 @@ using Spectra::SortRule;
 using Spectra::CompInfo;
 
 struct UserFault : public std::exception { long k; explicit UserFault(long k_) : k(k_) {} const char* what() const noexcept override { return "user operator fault"; } };
+struct RawFault { long k; };   // a user error type that is NOT derived from std::exception (throw_kind = 1)
 
 // FNV-1a over the bit patterns of every vector handed to the operator (input side): one number that pins the whole sequence
 struct OpLog {
-    long count = 0; uint64_t hash = 1469598103934665603ull; long throw_at = -1; bool alias_seen = false; long badlen = 0;
+    long count = 0; uint64_t hash = 1469598103934665603ull; long throw_at = -1; bool alias_seen = false; long badlen = 0; int throw_kind = 0;
+    [[noreturn]] void raise(long k) const { if (throw_kind == 1) throw RawFault{k}; throw UserFault(k); }
     void reset() { count = 0; hash = 1469598103934665603ull; }
     void feed(const double* x, long n) { for (long i = 0; i < n; i++) { uint64_t u = dbits(x[i]); for (int b = 0; b < 8; b++) { hash ^= (u >> (8 * b)) & 0xff; hash *= 1099511628211ull; } } }
     void enter(const double* x, const double* y, long n) {
         count++;
         if (x == y || (x < y + n && y < x + n)) alias_seen = true;
         feed(x, n);
-        if (throw_at >= 0 && count == throw_at) throw UserFault(count);
+        if (throw_at >= 0 && count == throw_at) raise(count);
     }
 };
 
